@@ -848,10 +848,11 @@ class _MissingImportFinder:
                 self.visit(key)
         self.visit(node.values)
 
-    def visit_comprehension(self, node):
+    def visit_comprehension(self, node, skip_iter=False):
         # Visit a "comprehension" node, which is a component of list
         # comprehensions and generator expressions.
-        self.visit(node.iter)
+        if not skip_iter:
+            self.visit(node.iter)
         def visit_target(target):
             if isinstance(target, ast.Name):
                 self._visit_Store(target.id)
@@ -867,50 +868,35 @@ class _MissingImportFinder:
         visit_target(node.target)
         self.visit(node.ifs)
 
+    def _visit_comp(self, node, elts):
+        # Visit a list/set/dict comprehension or generator expression.
+        #  - The iterable of the first ``for`` is evaluated in the enclosing
+        #    scope (in a class body it can see the class-level names).
+        #  - Everything else runs in a new function-like scope: names bound
+        #    at class level are not visible there, and the loop variables do
+        #    not leak out.
+        #  - We visit the comprehension node(s) before the element(s).
+        #    (generic_visit() would visit the elt first, because that comes
+        #    first in the node's _fields).
+        generators = node.generators
+        self.visit(generators[0].iter)
+        with self._NewScopeCtx(include_class_scopes=False):
+            self.visit_comprehension(generators[0], skip_iter=True)
+            self.visit(generators[1:])
+            for elt in elts:
+                self.visit(elt)
+
     def visit_ListComp(self, node):
-        # Visit a list comprehension node.
-        # This is basically the same as the generic visit, except that we
-        # visit the comprehension node(s) before the elt node.
-        # (generic_visit() would visit the elt first, because that comes first
-        # in ListComp._fields).
-        # For Python2, we intentionally don't enter a new scope here, because
-        # a list comprehensive _does_ leak variables out of its scope (unlike
-        # generator expressions).
-        # For Python3, we do need to enter a new scope here.
-        with self._NewScopeCtx(include_class_scopes=True):
-            self.visit(node.generators)
-            self.visit(node.elt)
+        self._visit_comp(node, [node.elt])
 
     def visit_DictComp(self, node):
-        # Visit a dict comprehension node.
-        # This is similar to the generic visit, except:
-        #  - We visit the comprehension node(s) before the elt node.
-        #  - We create a new scope for the variables.
-        # We do enter a new scope.  A dict comprehension
-        # does _not_ leak variables out of its scope (unlike py2 list
-        # comprehensions).
-        with self._NewScopeCtx(include_class_scopes=True):
-            self.visit(node.generators)
-            self.visit(node.key)
-            self.visit(node.value)
+        self._visit_comp(node, [node.key, node.value])
 
     def visit_SetComp(self, node):
-        # Visit a set comprehension node.
-        # We do enter a new scope.  A set comprehension
-        # does _not_ leak variables out of its scope (unlike py2 list
-        # comprehensions).
-        with self._NewScopeCtx(include_class_scopes=True):
-            self.visit(node.generators)
-            self.visit(node.elt)
+        self._visit_comp(node, [node.elt])
 
     def visit_GeneratorExp(self, node):
-        # Visit a generator expression node.
-        # We do enter a new scope.  A generator
-        # expression does _not_ leak variables out of its scope (unlike py2
-        # list comprehensions).
-        with self._NewScopeCtx(include_class_scopes=True):
-            self.visit(node.generators)
-            self.visit(node.elt)
+        self._visit_comp(node, [node.elt])
 
     def visit_ImportFrom(self, node):
         modulename = "." * node.level + (node.module or "")
